@@ -70,8 +70,9 @@ theorem pyIndex_arr_neg {l : List PV} {k : Nat} (h0 : 0 < k) (h : k ≤ l.length
   pyIndex_arr_nat (l := x :: xs) (i := 0) (by simp)
 @[simp] theorem pyIndex_arr_nil (i : Int) : pyIndex (.arr []) (.int i) = .error .indexError := by
   simp [pyIndex, pyIndexSeq, normIndex_nil]
-/-- a non-integer subscript. -/
-@[simp] theorem pyIndex_arr_arr (l js : List PV) : pyIndex (.arr l) (.arr js) = .error .typeError := rfl
+/-- an array subscript gathers (`a[[i, j, …]]`). -/
+theorem pyIndex_arr_arr (l js : List PV) :
+    pyIndex (.arr l) (.arr js) = (mapM' (fun k => pyIndexSeq (.arr l) k) js).map .arr := rfl
 /-- `arr[i]` is decided by `normIndex` alone. -/
 theorem pyIndex_arr_eq (l : List PV) (i : Int) :
     pyIndex (.arr l) (.int i) = match normIndex l.length i with
@@ -133,16 +134,28 @@ theorem pySlice_to_neg_one {α} (l : List α) : pySlice l 0 (-1) = l.dropLast :=
 
 /-! ### item assignment (integer arrays) -/
 
-theorem pySetItem_arr_nat {l : List PV} {i : Nat} (h : i < l.length) (x : Int) :
+/-- `a[i] = x` where the item now at `i` is an integer (a row of a two-dimensional array would be
+filled, a boolean item would stay boolean: `pySetItem`). -/
+theorem pySetItem_arr_nat {l : List PV} {i : Nat} {k : Int} (hk : l[i]? = some (.int k)) (x : Int) :
     pySetItem (.arr l) (.int i) (.int x) = .ok (.arr (l.set i (.int x))) := by
-  simp [pySetItem, pySetItemSeq, normIndex_natCast h]
-theorem pySetItem_arr_int {l : List PV} {i : Int} (h0 : 0 ≤ i) (h : i < l.length) (x : Int) :
+  have h : i < l.length := (List.getElem?_eq_some_iff.mp hk).1
+  have hg : l.getD i .none = .int k := by rw [List.getD_eq_getElem?_getD, hk]; rfl
+  simp [pySetItem, pySetItemSeq, normIndex_natCast h, hg]
+theorem pySetItem_arr_int {l : List PV} {i : Int} {k : Int} (h0 : 0 ≤ i) (hk : l[i.toNat]? = some (.int k))
+    (x : Int) :
     pySetItem (.arr l) (.int i) (.int x) = .ok (.arr (l.set i.toNat (.int x))) := by
-  simp [pySetItem, pySetItemSeq, normIndex_of_nonneg h0 h]
+  have := pySetItem_arr_nat hk x
+  rwa [Int.toNat_of_nonneg h0] at this
+/-- on an array of integers. -/
+theorem pySetItem_ints_nat {l : List Int} {i : Nat} (h : i < (l.map PV.int).length) (x : Int) :
+    pySetItem (.arr (l.map .int)) (.int i) (.int x) = .ok (.arr ((l.map .int).set i (.int x))) :=
+  pySetItem_arr_nat (k := l[i]'(by simpa using h)) (by simp [List.getElem?_eq_getElem (by simpa using h : i < l.length)]) x
 /-- assignment past the end (`IndexError`), whatever the value. -/
 theorem pySetItem_arr_of_ge {l : List PV} {i : Int} (h : (l.length : Int) ≤ i) (x : PV) :
     pySetItem (.arr l) (.int i) x = .error .indexError := by
-  simp only [pySetItem, pySetItemSeq, asInt?_int, normIndex_of_ge h]
+  cases hx : x.asInt? with
+  | none => simp only [pySetItem, pySetItemSeq, asInt?_int, hx, normIndex_of_ge h]
+  | some n => simp only [pySetItem, asInt?_int, hx, normIndex_of_ge h]
 
 /-! ## §2 integer arrays -/
 
@@ -295,10 +308,12 @@ theorem pyIndex_bitsPV_of_ge {bits : List Nat} {i : Int} (h : (bits.length : Int
     pyIndex (bitsPV bits) (.int i) = .error .indexError := pyIndex_arr_of_ge (by simpa using h)
 theorem pySetItem_bitsPV {bits : List Nat} {i : Nat} (h : i < bits.length) (b : Nat) :
     pySetItem (bitsPV bits) (.int i) (.int b) = .ok (bitsPV (bits.set i b)) := by
-  rw [bitsPV, pySetItem_arr_nat (by simpa using h)]; simp [bitsPV]
+  rw [bitsPV, pySetItem_arr_nat (k := (bits.getD i 0 : Nat)) (by simp [h, List.getD_eq_getElem?_getD])]; simp [bitsPV]
 theorem pySetItem_bitsPV_int {bits : List Nat} {i : Int} (h0 : 0 ≤ i) (h : i < bits.length) (b : Nat) :
     pySetItem (bitsPV bits) (.int i) (.int b) = .ok (bitsPV (bits.set i.toNat b)) := by
-  rw [bitsPV, pySetItem_arr_int h0 (by simpa using h)]; simp [bitsPV]
+  have h' : i.toNat < bits.length := by omega
+  rw [bitsPV, pySetItem_arr_int (k := (bits.getD i.toNat 0 : Nat)) h0 (by simp [h', List.getD_eq_getElem?_getD])]
+  simp [bitsPV]
 theorem pySetItem_bitsPV_of_ge {bits : List Nat} {i : Int} (h : (bits.length : Int) ≤ i) (x : PV) :
     pySetItem (bitsPV bits) (.int i) x = .error .indexError := pySetItem_arr_of_ge (by simpa using h) x
 
@@ -415,6 +430,13 @@ theorem npMul_ints_int (xs : List Int) (b : Int) :
 /-! ### comparisons -/
 
 @[simp] theorem liftCmp_def (c : PV → PV → R Bool) (a b : PV) : liftCmp c a b = (c a b).map .bool := rfl
+/-- on an integer / boolean item of an array `cmpItem` is `liftCmp` (only a row broadcasts once more). -/
+@[simp] theorem cmpItem_int (c : PV → PV → R Bool) (a : Int) (y : PV) :
+    cmpItem c (.int a) y = liftCmp c (.int a) y := rfl
+@[simp] theorem cmpItem_bool (c : PV → PV → R Bool) (a : Bool) (y : PV) :
+    cmpItem c (.bool a) y = liftCmp c (.bool a) y := rfl
+@[simp] theorem cmpItem_str (c : PV → PV → R Bool) (a : List Char) (y : PV) :
+    cmpItem c (.str a) y = liftCmp c (.str a) y := rfl
 /-- on scalars `npCmp` is the Python comparison (as a `bool` value). -/
 @[simp] theorem npCmp_int_int (c : PV → PV → R Bool) (a b : Int) :
     npCmp c (.int a) (.int b) = (c (.int a) (.int b)).map .bool := rfl
@@ -430,12 +452,12 @@ theorem npCmp_ints_int {c : PV → PV → R Bool} {b : Int} {p : Int → Bool}
     (h : ∀ x, c (.int x) (.int b) = .ok (p x)) (xs : List Int) :
     npCmp c (.arr (xs.map .int)) (.int b) = .ok (.arr (xs.map fun x => .bool (p x))) := by
   rw [npCmp, arrBroadcast_map_int (g := fun x => PV.bool (p x))]
-  intro x; rw [liftCmp_def, h]; rfl
+  intro x; rw [cmpItem_int, liftCmp_def, h]; rfl
 theorem npCmp_nats_int {c : PV → PV → R Bool} {b : Int} {p : Nat → Bool}
     (h : ∀ x : Nat, c (.int x) (.int b) = .ok (p x)) (xs : List Nat) :
     npCmp c (.arr (xs.map fun (n : Nat) => .int (n : Int))) (.int b) = .ok (.arr (xs.map fun x => .bool (p x))) := by
   rw [npCmp, arrBroadcast_map_int (g := fun x => PV.bool (p x))]
-  intro x; rw [liftCmp_def, h]; rfl
+  intro x; rw [cmpItem_int, liftCmp_def, h]; rfl
 theorem npCmp_pyGe_ints_int (xs : List Int) (b : Int) :
     npCmp pyGe (.arr (xs.map .int)) (.int b) = .ok (.arr (xs.map fun x => .bool (decide (b ≤ x)))) :=
   npCmp_ints_int (fun _ => rfl) xs
